@@ -35,6 +35,7 @@ type Knobs struct {
 	CountOp    bool // a call-counting (non-idempotent) user operator is available
 	RawConsts  bool // constants of non-canonical Go types (plain int) in ConstantMap
 	OddInts    bool // integer literals spelled with leading zeros or a plus sign
+	TupleOp    bool // a user operator that returns its params slice, consumed by other user operators
 }
 
 // deepTier is set by the worker for the thorough tier: bigger programs.
@@ -98,6 +99,7 @@ type Gen struct {
 	fl   []int           // failing op indices
 	left int             // nodes left in the current program's budget
 	pool []*Node         // recently generated boolean sub-trees (for deliberate repetition)
+	tup  string          // name of the tuple operator, if any
 }
 
 // NewGen draws a configuration (variables, constants, user operators).
@@ -222,6 +224,10 @@ func NewGen(r *Rng, k Knobs) *Gen {
 	if k.NowOp {
 		g.C.Ops = append(g.C.Ops, OpSpec{Name: "now", Kind: "now", Ret: TInt, Arity: 0})
 		g.ob[TInt] = append(g.ob[TInt], len(g.C.Ops)-1)
+	}
+	if k.TupleOp && len(g.C.Ops) > 0 {
+		g.C.Ops = append(g.C.Ops, OpSpec{Name: "tup", Kind: "tuple", Ret: TAny, Arity: 3})
+		g.tup = "tup"
 	}
 	return g
 }
@@ -562,6 +568,15 @@ func (g *Gen) customCall(idx int, d int) *Node {
 	a := make([]*Node, sp.Arity)
 	for i := range a {
 		a[i] = g.Expr([]Ty{TBool, TInt, TInt, TStr, TIntList, TStrList}[g.R.Intn(6)], d)
+	}
+	if g.tup != "" && len(a) > 0 && g.R.P(0.4) {
+		// one argument is the value of (tup x y z): the list of tup's arguments
+		n := []int{1, 3, 3, 4}[g.R.Intn(4)] // never 2: the engine hands binary operators a buffer it reuses, they cannot keep it
+		t := make([]*Node, n)
+		for i := range t {
+			t[i] = g.Expr([]Ty{TBool, TInt, TInt, TStr}[g.R.Intn(4)], 1)
+		}
+		a[g.R.Intn(len(a))] = Op(g.tup, t...)
 	}
 	return Op(sp.Name, a...)
 }
